@@ -7,10 +7,6 @@ import PytezosModel.Michelson.Interp.Spec
 namespace Interp
 open Stack
 
-theorem addTy_eq : Impl.addTy = Spec.addTy := by funext a b; cases a <;> cases b <;> rfl
-theorem subTy_eq : Impl.subTy = Spec.subTy := by funext a b; cases a <;> cases b <;> rfl
-theorem mulTy_eq : Impl.mulTy = Spec.mulTy := by funext a b; cases a <;> cases b <;> rfl
-theorem numFromValue_eq : Impl.numFromValue = Spec.numOk := by funext t v; cases t <;> rfl
 
 theorem listLt_eq : ∀ a b, Impl.listLt a b = Spec.lexLt a b
   | [], [] => rfl
@@ -124,6 +120,28 @@ theorem dug_refines (pre st : List Val) (n : Nat) (x : Val) (h : n ≤ st.length
   have hl : (st.take n).length = n := by rw [List.length_take]; omega
   rw [restore_mk' pre (st.take n) _ n hl]
 
+/-! the table-driven one-operand mirrors on the operand classes of the reference rules (through `Proofs/InterpTables.lean`) -/
+theorem execSize_str (x : List Nat) : Impl.execSize (.str x) = .ok (.num .nat x.length) := by
+  simp [Impl.execSize, sizeClasses_eq, typeOf, Typing.step, Impl.valLen, natFromValue_ofNat]
+theorem execSize_bytes (x : List Nat) : Impl.execSize (.bytes x) = .ok (.num .nat x.length) := by
+  simp [Impl.execSize, sizeClasses_eq, typeOf, Typing.step, Impl.valLen, natFromValue_ofNat]
+theorem execSize_list (t : Ty) (xs : List Val) : Impl.execSize (.list t xs) = .ok (.num .nat xs.length) := by
+  simp [Impl.execSize, sizeClasses_eq, typeOf, Typing.step, Impl.valLen, natFromValue_ofNat]
+theorem execSize_map (k v : Ty) (xs : List Val) : Impl.execSize (.map k v xs) = .ok (.num .nat xs.length) := by
+  simp [Impl.execSize, sizeClasses_eq, typeOf, Typing.step, Impl.valLen, natFromValue_ofNat]
+theorem execSize_set (t : Ty) (xs : List Val) : Impl.execSize (.set t xs) = .ok (.num .nat xs.length) := by
+  simp [Impl.execSize, sizeClasses_eq, typeOf, Typing.step, Impl.valLen, natFromValue_ofNat]
+theorem execNeg_int (x : Int) : Impl.execNeg (.num .int x) = .ok (.num .int (-x)) := by
+  simp [Impl.execNeg, negTy_eq, ruleTy1, Typing.step, numFromValue_eq, Spec.numOk]
+theorem execNeg_nat (x : Int) : Impl.execNeg (.num .nat x) = .ok (.num .int (-x)) := by
+  simp [Impl.execNeg, negTy_eq, ruleTy1, Typing.step, numFromValue_eq, Spec.numOk]
+theorem execNot_bool (x : Bool) : Impl.execNot (.bool x) = .ok (.bool (!x)) := by
+  simp [Impl.execNot, notRow_eq, ruleTy1, Typing.step, typeOf]
+theorem execNot_nat (x : Int) : Impl.execNot (.num .nat x) = .ok (.num .int (-x - 1)) := by
+  simp [Impl.execNot, notRow_eq, ruleTy1, Typing.step, typeOf, numFromValue_eq, Spec.numOk]
+theorem execNot_int (x : Int) : Impl.execNot (.num .int x) = .ok (.num .int (-x - 1)) := by
+  simp [Impl.execNot, notRow_eq, ruleTy1, Typing.step, typeOf, numFromValue_eq, Spec.numOk]
+
 /-- kill the stack/value shapes on which the reference rule does not apply, then compute both sides -/
 syntax "step_top1" : tactic
 set_option hygiene false in
@@ -133,7 +151,8 @@ macro_rules
       · exact absurd rfl hr
       · cases a <;> first | (exact absurd rfl hr) | skip
         all_goals (try (rename_i t v; cases t <;> first | (exact absurd rfl hr) | skip))
-        all_goals simp [Impl.step, Spec.step, Impl.stepMore, Spec.stepMore, Impl.execHash]))
+        all_goals simp [Impl.step, Spec.step, Impl.stepMore, Spec.stepMore, Impl.execHash, execSize_str, execSize_bytes,
+          execSize_list, execSize_map, execSize_set, execNeg_int, execNeg_nat, execNot_bool, execNot_nat, execNot_int]))
 
 section
 variable (env : Env) (pre st : List Val)
@@ -232,7 +251,7 @@ theorem step_PAIRN (n : Nat) (hr : Spec.step env (.PAIRN n) st ≠ .stuck) :
     have hi : Impl.step env (.PAIRN n) (stk pre st) = (if n < 2 then .stuck else do
         let (leaves, s) ← (stk pre st).pop n
         let r ← Impl.fromComb leaves
-        pure (s.push r)) := rfl
+        pure (s.push r)) := by rw [Impl.step, pairnMin_eq]
     rw [hi]
     simp [h1', pop_mk, h2', h3, h4]
 
@@ -253,7 +272,7 @@ theorem step_UNPAIRN (n : Nat) (hr : Spec.step env (.UNPAIRN n) st ≠ .stuck) :
         let (p, s) ← (stk pre (.pair a b :: st)).pop1
         match p with
         | .pair _ _ => pure ((Impl.unpairnComb (n - 2) p).reverse.foldl Stack.push s)
-        | _ => .stuck) := rfl
+        | _ => .stuck) := by rw [Impl.step, unpairnMin_eq, unpairnCombOffset_eq]; rfl
     rw [hi]
     simp only [h1', if_false, pop1_mk_cons, Res.bind_ok, h3, push_reversed, Res.pure_eq, map'_ok]
 
@@ -337,41 +356,72 @@ theorem step_binop (i : Instr) (f g : Val → Val → Res Val)
   | offguard => simp
   | ok r => simp
 
+/-! AND / OR / XOR on the operand classes of the reference rules: the row of the extracted table (`andRow_eq`, `orRow_eq`) -/
+theorem execAnd_bool (x y : Bool) : Impl.execAnd (.bool x) (.bool y) = .ok (.bool (x && y)) := by
+  simp [Impl.execAnd, Impl.execBitwise, andRow_eq, typeOf, Typing.andTy]
+theorem execAnd_nat_nat (x y : Int) : Impl.execAnd (.num .nat x) (.num .nat y) = Impl.numFromValue .nat (Impl.pyAnd x y) := by
+  simp [Impl.execAnd, Impl.execBitwise, andRow_eq, typeOf, Typing.andTy]
+theorem execAnd_int_nat (x y : Int) : Impl.execAnd (.num .int x) (.num .nat y) = Impl.numFromValue .nat (Impl.pyAnd x y) := by
+  simp [Impl.execAnd, Impl.execBitwise, andRow_eq, typeOf, Typing.andTy]
+theorem execAnd_nat_int (x y : Int) : Impl.execAnd (.num .nat x) (.num .int y) = Impl.numFromValue .nat (Impl.pyAnd x y) := by
+  simp [Impl.execAnd, Impl.execBitwise, andRow_eq, typeOf, Typing.andTy]
+theorem execOr_bool (x y : Bool) : Impl.execOr (.bool x) (.bool y) = .ok (.bool (x || y)) := by
+  simp [Impl.execOr, Impl.execBitwise, orRow_eq, typeOf, Typing.orTy]
+theorem execOr_nat_nat (x y : Int) : Impl.execOr (.num .nat x) (.num .nat y) = Impl.numFromValue .nat (Impl.pyOr x y) := by
+  simp [Impl.execOr, Impl.execBitwise, orRow_eq, typeOf, Typing.orTy]
+theorem execXor_bool (x y : Bool) : Impl.execXor (.bool x) (.bool y) = .ok (.bool (x != y)) := by
+  simp [Impl.execXor, Impl.execBitwise, orRow_eq, typeOf, Typing.orTy]
+theorem execXor_nat_nat (x y : Int) : Impl.execXor (.num .nat x) (.num .nat y) = Impl.numFromValue .nat (Impl.pyXor x y) := by
+  simp [Impl.execXor, Impl.execBitwise, orRow_eq, typeOf, Typing.orTy]
+
+theorem execConcatPair_str (x y : List Nat) : Impl.execConcatPair (.str x) (.str y) = .ok (.str (x ++ y)) := by
+  simp [Impl.execConcatPair, concatPairRow_eq, ruleTy1, typeOf, Typing.step]
+theorem execConcatPair_bytes (x y : List Nat) : Impl.execConcatPair (.bytes x) (.bytes y) = .ok (.bytes (x ++ y)) := by
+  simp [Impl.execConcatPair, concatPairRow_eq, ruleTy1, typeOf, Typing.step]
+theorem execConcatList_string (xs : List Val) :
+    Impl.execConcatList .string xs = (match Impl.strVals xs with | some ss => .ok (.str ss.flatten) | none => .stuck) := by
+  simp [Impl.execConcatList, concatListRow_eq, ruleTy1, Typing.step]
+  cases Impl.strVals xs <;> rfl
+theorem execConcatList_bytes (xs : List Val) :
+    Impl.execConcatList .bytes xs = (match Impl.bytesVals xs with | some ss => .ok (.bytes ss.flatten) | none => .stuck) := by
+  simp [Impl.execConcatList, concatListRow_eq, ruleTy1, Typing.step]
+  cases Impl.bytesVals xs <;> rfl
+
 theorem execAnd_eq (a b : Val) (h : Spec.andV a b ≠ .stuck) : Impl.execAnd a b = Spec.andV a b := by
   unfold Spec.andV at h ⊢
   split at h
-  · rfl
+  · exact execAnd_bool _ _
   · rename_i x y
     by_cases hc : 0 ≤ x ∧ 0 ≤ y
-    · simp [Impl.execAnd, hc, pyAnd_nat x y hc.1 hc.2, natFromValue_ofNat]
+    · simp [execAnd_nat_nat, hc, pyAnd_nat x y hc.1 hc.2, natFromValue_ofNat]
     · simp [hc] at h
   · rename_i x y
     by_cases hc : 0 ≤ y
-    · simp [Impl.execAnd, hc, pyAnd_int_nat x y hc, natFromValue_ofNat]
+    · simp [execAnd_int_nat, hc, pyAnd_int_nat x y hc, natFromValue_ofNat]
     · simp [hc] at h
   · rename_i x y
     by_cases hc : 0 ≤ x
-    · simp [Impl.execAnd, hc, pyAnd_nat_int x y hc, natFromValue_ofNat]
+    · simp [execAnd_nat_int, hc, pyAnd_nat_int x y hc, natFromValue_ofNat]
     · simp [hc] at h
   · exact absurd rfl h
 
 theorem execOr_eq (a b : Val) (h : Spec.orV a b ≠ .stuck) : Impl.execOr a b = Spec.orV a b := by
   unfold Spec.orV at h ⊢
   split at h
-  · rfl
+  · exact execOr_bool _ _
   · rename_i x y
     by_cases hc : 0 ≤ x ∧ 0 ≤ y
-    · simp [Impl.execOr, hc, pyOr_nat x y hc.1 hc.2, natFromValue_ofNat]
+    · simp [execOr_nat_nat, hc, pyOr_nat x y hc.1 hc.2, natFromValue_ofNat]
     · simp [hc] at h
   · exact absurd rfl h
 
 theorem execXor_eq (a b : Val) (h : Spec.xorV a b ≠ .stuck) : Impl.execXor a b = Spec.xorV a b := by
   unfold Spec.xorV at h ⊢
   split at h
-  · cases ‹Bool› <;> cases ‹Bool› <;> rfl
+  · rw [execXor_bool]
   · rename_i x y
     by_cases hc : 0 ≤ x ∧ 0 ≤ y
-    · simp [Impl.execXor, hc, pyXor_nat x y hc.1 hc.2, natFromValue_ofNat]
+    · simp [execXor_nat_nat, hc, pyXor_nat x y hc.1 hc.2, natFromValue_ofNat]
     · simp [hc] at h
   · exact absurd rfl h
 
@@ -415,7 +465,7 @@ theorem execLsl_eq (a b : Val) (h : Spec.lslV a b ≠ .stuck) :
     · by_cases hc : n ≤ 256
       · simp only [h0, hc, if_true, if_false]; exact execShift_lsl x n ⟨by omega, hc⟩
       · have h257 : ¬ n < 257 := by omega
-        simp [Impl.execShift, h0, hc, h257]
+        simp [Impl.execShift, shiftLimit_eq, h0, hc, h257]
   · exact absurd rfl h
 
 theorem execLsr_eq (a b : Val) (h : Spec.lsrV a b ≠ .stuck) :
@@ -428,7 +478,7 @@ theorem execLsr_eq (a b : Val) (h : Spec.lsrV a b ≠ .stuck) :
     · by_cases hc : n ≤ 256
       · simp only [h0, hc, if_true, if_false]; exact execShift_lsr x n ⟨by omega, hc⟩
       · have h257 : ¬ n < 257 := by omega
-        simp [Impl.execShift, h0, hc, h257]
+        simp [Impl.execShift, shiftLimit_eq, h0, hc, h257]
   · exact absurd rfl h
 
 theorem execSubMutez_eq (a b : Val) (h : Spec.subMutezV a b ≠ .stuck) : Impl.execSubMutez a b = Spec.subMutezV a b := by
@@ -506,7 +556,8 @@ theorem step_SLICE (hr : Spec.step env .SLICE st ≠ .stuck) :
   · exact absurd rfl hr
   cases c <;> first | (exact absurd rfl hr) | skip
   all_goals
-    simp only [Impl.step, Spec.step, pop3_mk_cons, Res.bind_ok, Spec.slice, map'_ok]
+    simp only [Impl.step, Spec.step, pop3_mk_cons, Res.bind_ok, Spec.slice, map'_ok, Impl.execSlice, sliceOffsetClass_eq,
+      sliceLengthClass_eq, sliceClasses_eq, typeOf, Typing.step, decide_true, Option.isSome_some, Bool.and_self, if_true]
     split <;> simp_all
 end
 
@@ -634,13 +685,13 @@ theorem step_refines (env : Env) (i : Instr) (pre st : List Val) (hr : Spec.step
       case str x =>
         rcases st with _ | ⟨b, st⟩
         · simp [Spec.step] at hr
-        · cases b <;> simp_all [Impl.step, Spec.step]
+        · cases b <;> simp_all [Impl.step, Spec.step, execConcatPair_str]
       case bytes x =>
         rcases st with _ | ⟨b, st⟩
         · simp [Spec.step] at hr
-        · cases b <;> simp_all [Impl.step, Spec.step]
+        · cases b <;> simp_all [Impl.step, Spec.step, execConcatPair_bytes]
       case list t xs =>
-        cases t <;> simp_all [Impl.step, Spec.step]
+        cases t <;> simp_all [Impl.step, Spec.step, execConcatList_string, execConcatList_bytes]
         · rw [← strVals_eq] at hr ⊢
           cases Impl.strVals xs <;> simp_all
         · rw [← bytesVals_eq] at hr ⊢
